@@ -473,6 +473,7 @@ func (sr *seqRunner) runSeqCase(cs *seqCase) (nontrivial bool, fp uint64) {
 			vshim.SetVNow(now) // every instance starts every call at the same instant
 		}
 		cbFired := len(rs) > 0 && len(rs[0].Cbs) > 0
+		prevCount0 := insts[0].count
 		e, hit := mdl.vis(op.K, now)
 		if !keyed {
 			e, hit = nil, false
@@ -659,7 +660,9 @@ func (sr *seqRunner) runSeqCase(cs *seqCase) (nontrivial bool, fp uint64) {
 					if len(r.Cbs) != in.count-r.Count {
 						bad("callback", op.Op+": callbacks != entries removed", "%s: %s(k%d) fired %d callbacks, Count went %d -> %d", step, name, op.Op, op.K, len(r.Cbs), in.count, r.Count)
 					}
-					if me != nil && !me.maybeGone && len(r.Cbs) != 1 {
+					// (whether Delete / GetAndDelete also drop an entry that has already expired is
+					// not specified: only a live entry must be removed and reported)
+					if hit && len(r.Cbs) != 1 {
 						bad("callback", op.Op+" of a present entry fires no/duplicate callback", "%s: %s(k%d) on a %s entry fired %d callbacks", step, name, op.Op, op.K, kclass, len(r.Cbs))
 					}
 				} else if len(r.Cbs) != 0 {
@@ -679,7 +682,7 @@ func (sr *seqRunner) runSeqCase(cs *seqCase) (nontrivial bool, fp uint64) {
 				if in.count-r.Count < 0 || in.count-r.Count > 1 {
 					bad("count", op.Op+" changes Count by other than 0/-1", "%s: %s(k%d): Count %d -> %d", step, name, op.Op, op.K, in.count, r.Count)
 				}
-				if me != nil && !me.maybeGone && in.count-r.Count != 1 {
+				if hit && in.count-r.Count != 1 {
 					bad("count", op.Op+" of a present entry does not lower Count", "%s: %s(k%d) on %s entry: Count %d -> %d", step, name, op.Op, op.K, kclass, in.count, r.Count)
 				}
 			case "DeleteExpired":
@@ -730,9 +733,24 @@ func (sr *seqRunner) runSeqCase(cs *seqCase) (nontrivial bool, fp uint64) {
 		// ---- twin comparison: every observable field equal
 		if cs.Twin && len(rs) > 1 {
 			a := rs[0]
+			// Count is compared between twins only while no expired entry is
+			// waiting for cleanup: which of those a call drops on the way
+			// (a traversal stopped early, say) may depend on iteration order,
+			// and the per-instance bounds below cover that case.
+			stale := false
+			tnow := now
+			if op.Op == "RangeAdv" && op.Now > tnow {
+				tnow = op.Now
+			}
+			for k := range mdl.m {
+				if _, vis := mdl.vis(k, tnow); !vis {
+					stale = true
+					break
+				}
+			}
 			for j := 1; j < len(rs); j++ {
 				b := rs[j]
-				if d := diffRes(a, b, op.StopAt > 0); d != "" {
+				if d := diffRes(a, b, op.StopAt > 0, !stale); d != "" {
 					bad("twin", "twins differ in "+op.Op+": "+firstWord(d), "%s vs %s: %s differs: %s", step, insts[0].c.Name(), insts[j].c.Name(), op.Op, d)
 				}
 			}
@@ -775,7 +793,13 @@ func (sr *seqRunner) runSeqCase(cs *seqCase) (nontrivial bool, fp uint64) {
 				mdl.m[op.K] = &ment{v: op.V, e: mdl.exp(op.D, now)}
 			}
 		case "GetAndDelete", "Delete":
-			delete(mdl.m, op.K)
+			if hit || e == nil {
+				delete(mdl.m, op.K)
+			} else if len(rs) > 0 && rs[0].Count < prevCount0 {
+				delete(mdl.m, op.K) // the expired entry was physically removed (Count went down)
+			} else {
+				e.maybeGone = true // an expired entry may or may not be dropped by Delete
+			}
 		case "DeleteExpired":
 			for k := range mdl.m {
 				if _, vis := mdl.vis(k, now); !vis {
@@ -858,6 +882,7 @@ func (sr *seqRunner) runSeqCase(cs *seqCase) (nontrivial bool, fp uint64) {
 				if in.c.ItemsUnknown() != 0 || !sameItems(it, liveNow) {
 					bad("value", "contents differ from the model after "+op.Op, "%s: after %s Items() = %s, model %s", step, in.c.Name(), op.Op, fmtItems(it), fmtItems(liveNow))
 				}
+				in.count = in.c.Count() // the harness's own traversal may have cleaned expired entries
 			}
 		}
 	}
@@ -881,7 +906,7 @@ func firstWord(s string) string {
 	return s
 }
 
-func diffRes(a, b cres, stopped bool) string {
+func diffRes(a, b cres, stopped, cmpCount bool) string {
 	switch {
 	case !veq(a.V, b.V):
 		return fmt.Sprintf("value %s vs %s", fmtVal(a.V), fmtVal(b.V))
@@ -891,7 +916,7 @@ func diffRes(a, b cres, stopped bool) string {
 		return fmt.Sprintf("time %v vs %v", a.T, b.T)
 	case a.TTL != b.TTL:
 		return fmt.Sprintf("ttl %d vs %d", a.TTL, b.TTL)
-	case a.N != b.N || a.Count != b.Count:
+	case a.N != b.N || (cmpCount && a.Count != b.Count):
 		return fmt.Sprintf("count %d/%d vs %d/%d", a.N, a.Count, b.N, b.Count)
 	case a.D != b.D:
 		return fmt.Sprintf("default %d vs %d", a.D, b.D)
